@@ -524,6 +524,10 @@ def getitem(I, o, k, node):
                 return o[k]
         except TypeError:
             raise PyRaise(ExcValue("TypeError", ("unhashable",)))
+        if getattr(o, "factory", None) is not None:
+            v = I.call(o.factory, [], {})
+            o[k] = v
+            return v
         raise PyRaise(ExcValue("KeyError", (k,)))
     if isinstance(o, Sym) and o.kind == "str":
         if kind_of(k) not in ("int", "bool"):
@@ -846,6 +850,11 @@ def getattr_(I, o, name, node=None):
             return ClassRef(o.cls)
         if name == "__dict__":
             return dict(o.fields)
+        if isinstance(o.cls, ClassInfo) and any(isinstance(b, str) and b.split(".")[-1] == "UserDict" for c in o.cls.mro() if isinstance(c, ClassInfo) for b in c.bases()) \
+                and name in ("clear", "items", "keys", "values", "get", "update", "copy") and o.cls.find_method(name) is None:
+            # collections.UserDict (assumed stdlib contract): a mapping stored in self.data; these methods act on self.data only
+            from .builtins_ import builtin_method
+            return builtin_method(I, o.fields.setdefault("data", {}), name)
         if isinstance(o.cls, ClassInfo):
             m = o.cls.find_method(name)
             if m is not None:
@@ -956,8 +965,10 @@ def setattr_(I, o, name, v, node=None):
     if isinstance(o, ClassRef):
         if I.E.frame_hook is not None:
             I.E.frame_hook(I, o, name, v)
-        I.E.class_attr_cache[(o.info.qualname, name)] = v
-        raise OutsideSubset(f"assignment to class attribute {o.info.name}.{name}")
+        if not hasattr(I.ctx, "class_attrs"):
+            I.ctx.class_attrs = {}
+        I.ctx.class_attrs[(o.info.qualname, name)] = v       # class-level state of this path
+        return
     if o is None or isinstance(o, (int, str, bool, float, tuple, list, dict, Sym)):
         raise PyRaise(ExcValue("AttributeError", (f"'{type_name(o)}' object has no attribute '{name}'",)))
     raise OutsideSubset(f"attribute assignment on {o!r}")
